@@ -27,7 +27,7 @@ var (
 	err2   = rpcsim.Option{Kind: "nerr", ID: 2, Target: 1, Val: 400}
 	frn3   = rpcsim.Option{Kind: "nres", ID: 3, Target: 90, Val: 103}
 	cancel = rpcsim.Option{Kind: "cancel", ID: 1}
-	fclose = rpcsim.Option{Kind: "fclose"}
+	fclose = rpcsim.Option{Kind: "fclose", ID: 2}
 	ack1   = rpcsim.Option{Kind: "ack", IDs: []int64{1}}
 	adv3   = rpcsim.Option{Kind: "adv", D: 3}
 )
@@ -43,9 +43,9 @@ func directed() []rpcsim.Directed {
 		{Sc: one("d13-retry-limit", 1, res0, adv3), Script: []string{
 			"start 1 1 7", "sret 1 ok", "nres 0 1 100", "adv 3", "run 1", "sret 1 ok", "nrun 0", "nrun 0", "nwrite 0 ok"}},
 		{Sc: one("d13-force-close", 2, res0, fclose), Script: []string{
-			"start 1 1 7", "sret 1 ok", "nres 0 1 100", "fclose", "run 1", "nrun 0", "nrun 0", "nwrite 0 ok"}},
+			"start 1 1 7", "sret 1 ok", "nres 0 1 100", "fclose 2", "run 1", "nrun 0", "nrun 0", "nwrite 0 ok"}},
 		{Sc: one("d13-force-close-acked", 2, res0, ack1, fclose), Script: []string{
-			"start 1 1 7", "sret 1 ok", "ack 1", "run 1", "nres 0 1 100", "fclose", "run 1", "nrun 0", "nrun 0", "nwrite 0 ok"}},
+			"start 1 1 7", "sret 1 ok", "ack 1", "run 1", "nres 0 1 100", "fclose 2", "run 1", "nrun 0", "nrun 0", "nwrite 0 ok"}},
 		{Sc: &rpcsim.Scenario{Name: "d13-send-error", Cfg: rpcsim.Config{MaxRetries: 2, Interval: 3}, SendErr: true,
 			Calls: []rpcsim.Option{{Kind: "start", ID: 1, Seq: 1, Body: 7}}, Env: []rpcsim.Option{res0}}, Script: []string{
 			"start 1 1 7", "nres 0 1 100", "sret 1 err", "nrun 0", "nrun 0", "nwrite 0 ok"}},
@@ -76,7 +76,7 @@ func dfsScenarios() []*rpcsim.Scenario {
 }
 
 func run(c *hc.Ctx) error {
-	k := &rpcsim.Check{C: c, Prop: "C24", W: rpcsim.WeightsC24,
+	k := &rpcsim.Check{C: c, Prop: "C24", Src: rpcsim.ReadSrc(hc.NewFacts("C24", c.Repo)), W: rpcsim.WeightsC24,
 		Nontrivial: func(s *rpcsim.Sim) bool { return s.Stats["lookup-hit"] > 0 }}
 	if err := k.RunDirected(directed()); err != nil {
 		return err
